@@ -12,7 +12,6 @@ memory"); other memcheck reports are recorded only.
 import hashlib
 import os
 import re
-import shutil
 
 from .. import build, corpus
 from ..run import run as sh, pmap, Scratch, NCPU
@@ -23,6 +22,7 @@ HERE = os.path.dirname(os.path.abspath(__file__))
 VERIF = os.path.dirname(os.path.dirname(HERE))
 WITNESS_DIR = os.path.join(VERIF, "findings", "C19", "modpath")
 
+VG_CPU = 60                      # CPU seconds for one memcheck run; beyond that the run is counted as inconclusive
 TOOLS = ("nvm", "genC")          # nano_virt --emit-nvm  /  nanoc -S
 
 
@@ -105,7 +105,7 @@ def _multi_module_programs(rng, n):
     """Hand-written multi-module programs (import of sibling files, `from .. import`, `module .. as`, transitive
     imports, a sub-directory, a diamond).  Constants come from rng so different seeds see different bytes."""
     out = []
-    shapes = ["flat", "chain", "diamond", "subdir", "many", "alias"]
+    shapes = ["flat", "types", "chain", "diamond", "subdir", "many", "alias"]
     for i in range(n):
         shape = shapes[i % len(shapes)]
         v = dict(k1=rng.randrange(2, 90), k2=rng.randrange(100, 999), k3=rng.randrange(3, 50),
@@ -124,6 +124,50 @@ fn main() -> int {
     (println (scale %(k3)d))
     (println (point_sum p))
     (println (point_label p))
+    return 0
+}
+shadow main { assert (== (main) 0) }
+""" % v
+        elif shape == "types":
+            # several struct / enum / union definitions in the main file and in a module: the order of type tables matters
+            files["kinds.nano"] = """pub struct Size { w: int, h: int }
+pub enum Mode { Off, On, Auto }
+pub fn area(s: Size) -> int {
+    return (* s.w s.h)
+}
+shadow area { assert (== (area Size { w: 2, h: 3 }) 6) }
+"""
+            files["main.nano"] = """from "kinds.nano" import Size, area
+
+struct Alpha { a: int, label: string }
+struct Beta { b: int, inner: Alpha }
+struct Gamma { g: bool, count: int }
+enum Color { Red, Green, Blue }
+union Shape {
+    Circle { radius: int },
+    Rect { w: int, h: int }
+}
+
+fn describe(s: Shape) -> int {
+    match s {
+        Circle(c) => { return c.radius }
+        Rect(r) => { return (* r.w r.h) }
+    }
+}
+shadow describe { assert (== (describe Shape.Circle { radius: 3 }) 3) }
+
+fn main() -> int {
+    let a: Alpha = Alpha { a: %(k1)d, label: "%(s1)s" }
+    let b: Beta = Beta { b: %(k2)d, inner: a }
+    let g: Gamma = Gamma { g: true, count: %(k3)d }
+    let c: Color = Color.Green
+    (println (+ a.a (+ b.b g.count)))
+    (println b.inner.label)
+    (println (describe Shape.Rect { w: 2, h: %(k3)d }))
+    (println (area Size { w: 4, h: %(k1)d }))
+    if (== c Color.Green) {
+        (println "green")
+    }
     return 0
 }
 shadow main { assert (== (main) 0) }
@@ -262,8 +306,15 @@ BAD_FUNCS = [
 ]
 
 
-def _break(prog, rng, serial):
-    """Take a valid program and break it (one injected fault). Returns a new Prog of kind 'ill'."""
+INPLACE_KINDS = ["inplace-rename-identifier", "inplace-int-to-string", "inplace-delete-paren", "inplace-type-annotation"]
+BREAK_KINDS = [b[0] for b in BAD_FUNCS] + INPLACE_KINDS
+KEYWORDS = ("return", "let", "mut", "set", "while", "for", "else", "assert", "true", "false", "int", "string", "bool",
+            "float", "shadow", "and", "not", "println", "print", "void", "pub", "extern", "match", "cond", "import",
+            "from", "module", "struct", "enum", "union", "array")
+
+
+def _break(prog, rng, serial, label):
+    """Take a valid program and break it (one injected fault of kind `label`). Returns a new Prog of kind 'ill'."""
     files = dict(prog.files)
     # the file to damage: for multi-module programs sometimes an imported module
     target = prog.main
@@ -271,15 +322,12 @@ def _break(prog, rng, serial):
     if others and rng.random() < 0.5:
         target = rng.choice(others)
     text = files[target].decode("utf-8", "replace")
-    mode = rng.random()
-    label = None
-    if mode < 0.55:
-        label, tmpl = BAD_FUNCS[rng.randrange(len(BAD_FUNCS))]
+    if label not in INPLACE_KINDS:
+        tmpl = dict(BAD_FUNCS)[label]
         snippet = tmpl % {"n": rng.randrange(10, 99)}
         if label == "missing-import" or rng.random() < 0.3:
             # in front (after leading import/module lines so that imports stay first)
             lines = text.split("\n")
-            k = 0
             last_imp = -1
             for k, ln in enumerate(lines[:80]):
                 if re.match(r"\s*(import|from|module)\b", ln):
@@ -289,35 +337,26 @@ def _break(prog, rng, serial):
             text = "\n".join(lines)
         else:
             text = text.rstrip("\n") + "\n\n" + snippet
+    elif label == "inplace-rename-identifier":
+        cands = [m for m in re.finditer(r"(?<=[( ])([a-z][a-z0-9_]{2,})(?=[ )])", text) if m.group(1) not in KEYWORDS]
+        if cands:
+            m = rng.choice(cands)
+            text = text[:m.start(1)] + "nlv_unknown_q%d" % rng.randrange(10, 99) + text[m.end(1):]
+    elif label == "inplace-int-to-string":
+        cands = list(re.finditer(r"(?<=[( ])(\d+)(?=[ )\n])", text))
+        if cands:
+            m = rng.choice(cands)
+            text = text[:m.start(1)] + "\"nlv%s\"" % m.group(1) + text[m.end(1):]
+    elif label == "inplace-delete-paren":
+        cands = [m.start() for m in re.finditer(r"\)", text)]
+        if cands:
+            at = rng.choice(cands)
+            text = text[:at] + text[at + 1:]
     else:
-        # in-place damage of one token
-        if mode < 0.70:
-            label = "inplace-rename-identifier"
-            cands = [m for m in re.finditer(r"(?<=[( ])([a-z][a-z0-9_]{2,})(?=[ )])", text)
-                     if m.group(1) not in ("return", "let", "mut", "set", "while", "for", "else", "assert", "true",
-                                           "false", "int", "string", "bool", "float", "shadow", "and", "not",
-                                           "println", "print", "void", "pub", "extern", "match", "cond")]
-            if cands:
-                m = rng.choice(cands)
-                text = text[:m.start(1)] + "nlv_unknown_q%d" % rng.randrange(10, 99) + text[m.end(1):]
-        elif mode < 0.82:
-            label = "inplace-int-to-string"
-            cands = list(re.finditer(r"(?<=[( ])(\d+)(?=[ )\n])", text))
-            if cands:
-                m = rng.choice(cands)
-                text = text[:m.start(1)] + "\"nlv%s\"" % m.group(1) + text[m.end(1):]
-        elif mode < 0.92:
-            label = "inplace-delete-paren"
-            cands = [m.start() for m in re.finditer(r"\)", text)]
-            if cands:
-                at = rng.choice(cands)
-                text = text[:at] + text[at + 1:]
-        else:
-            label = "inplace-type-annotation"
-            cands = list(re.finditer(r": int\b", text))
-            if cands:
-                m = rng.choice(cands)
-                text = text[:m.start()] + ": string" + text[m.end():]
+        cands = list(re.finditer(r": int\b", text))
+        if cands:
+            m = rng.choice(cands)
+            text = text[:m.start()] + ": string" + text[m.end():]
     files[target] = text.encode("utf-8", "replace")
     p = Prog("ill", "ill-%d-%s-of-%s" % (serial, label, prog.name), files, prog.main, note="%s in %s" % (label, target))
     return p if p.hash != prog.hash else None
@@ -580,10 +619,13 @@ def _compile(flv, prog, cfg, tool, valgrind=False):
     vlog = None
     if valgrind:
         vlog = os.path.join(outdir, "memcheck.log")
-        cmd = ["valgrind", "--tool=memcheck", "--track-origins=yes", "--error-exitcode=95", "-q",
+        cmd = ["valgrind", "--tool=memcheck", "--track-origins=yes", "--error-exitcode=95", "-q", "--vgdb=no",
                "--malloc-fill=0xA5", "--free-fill=0x5A", "--log-file=" + vlog] + cmd
     cmd = list(cfg.prefix) + cmd
-    r = sh(cmd, cwd=cwd, env=env, merge_env=False, cpu=(600 if valgrind else 60), wall=(1800 if valgrind else 300))
+    r = sh(cmd, cwd=cwd, env=env, merge_env=False, cpu=(VG_CPU if valgrind else 60), wall=(1800 if valgrind else 600))
+    if r.rc in (126, 127) and not os.path.exists(exe):
+        # the build cache entry was pruned under our feet (many builds going on): harness failure, not an observation
+        raise RuntimeError("tool binary %s vanished during the run (build cache pruned?)" % exe)
     o = Obs()
     o.cmd = "cd %s && env -i %s %s" % (cwd, " ".join("%s='%s'" % kv for kv in sorted(env.items())), " ".join(cmd))
     o.status = r.status
@@ -665,13 +707,41 @@ def classify_genc_diff(a, b, same_file):
             "(/* Module: .. (path: ..) */ and ___module_path_<m>())" % modpath)
 
 
+NVM_SECTION_NAMES = {1: "code", 2: "strings", 3: "functions", 4: "structs", 5: "enums", 6: "unions", 7: "globals",
+                     8: "imports", 9: "debug", 10: "metadata"}      # only used to name the place of a difference
+
+
+def _nvm_region(data, off):
+    """Name of the part of an .nvm file that contains byte `off` (header field / directory / section / gap)."""
+    if off < 32:
+        return "header." + {0: "magic", 1: "version", 2: "flags", 3: "entry", 4: "nsections", 5: "strpool-off",
+                            6: "strpool-len", 7: "crc"}[off // 4]
+    try:
+        n = int.from_bytes(data[16:20], "little")
+        if n > 64:
+            return "body"
+        if off < 32 + 12 * n:
+            return "directory"
+        for i in range(n):
+            e = data[32 + 12 * i: 44 + 12 * i]
+            typ, o, sz = (int.from_bytes(e[k:k + 4], "little") for k in (0, 4, 8))
+            if o <= off < o + sz:
+                return "section." + NVM_SECTION_NAMES.get(typ, "type%d" % typ)
+        return "gap-between-sections"
+    except Exception:
+        return "body"
+
+
 def classify_nvm_diff(a, b):
     if len(a) != len(b):
         return "size", "sizes differ: %d vs %d bytes" % (len(a), len(b))
-    k = next(i for i in range(len(a)) if a[i] != b[i])
-    n = sum(1 for i in range(len(a)) if a[i] != b[i])
-    where = "header" if k < 32 else "body"
-    return where, "%d byte(s) differ, first at offset %d (0x%02x vs 0x%02x) of %d" % (n, k, a[k], b[k], len(a))
+    diffs = [i for i in range(len(a)) if a[i] != b[i]]
+    # the CRC (header bytes 28..31) covers everything behind the header: name the first difference that is not the CRC
+    body = [i for i in diffs if not 28 <= i < 32] or diffs
+    k = body[0]
+    where = _nvm_region(a, k)
+    return where, "%d byte(s) differ, first (apart from the CRC) at offset %d in %s (0x%02x vs 0x%02x) of %d" % (
+        len(diffs), k, where, a[k], b[k], len(a))
 
 
 def classify_diag_diff(a, b):
@@ -694,6 +764,10 @@ def _job(arg):
     flv, prog, cfgs, do_vg, vg_cfg = arg
     res = {"prog": prog, "obs": {}, "vg": {}, "error": None, "vgcfg": vg_cfg.name}
     try:
+        try:
+            os.utime(flv.root)                # keep the cache entry young: build._prune removes the oldest ones
+        except OSError:
+            pass
         for cfg in cfgs:
             for tool in TOOLS:
                 res["obs"][(cfg.name, tool)] = _compile(flv, prog, cfg, tool)
@@ -720,13 +794,14 @@ def _controls(ctx, flv, sc):
                    "int main(int c, char **v) { char *p = malloc(64); if (c > 2) memset(p, 1, 64); else memset(p, 1, 60);\n"
                    " FILE *f = fopen(v[1], \"wb\"); fwrite(p, 1, 64, f); fclose(f); if (p[c] == 7) puts(\"x\"); return 0; }\n")
     exe = os.path.join(os.path.dirname(csrc), "ctl")
-    r = sh(["gcc", "-g", "-O0", "-o", exe, csrc], cpu=60)
+    tenv = {"TMPDIR": os.path.dirname(csrc)}
+    r = sh(["gcc", "-g", "-O0", "-o", exe, csrc], cpu=60, env=tenv)
     ctx.require(r.rc == 0, "cannot build the memcheck control program: " + r.errtext()[-300:])
     got = []
     for extra in ([], ["init"]):
         log = os.path.join(os.path.dirname(csrc), "ctl%d.log" % len(extra))
-        r = sh(["valgrind", "--tool=memcheck", "--track-origins=yes", "--error-exitcode=95", "-q", "--malloc-fill=0xA5",
-                "--free-fill=0x5A", "--log-file=" + log, exe, os.path.join(os.path.dirname(csrc), "out.bin")] + extra, cpu=120)
+        r = sh(["valgrind", "--tool=memcheck", "--track-origins=yes", "--error-exitcode=95", "-q", "--vgdb=no",
+                "--malloc-fill=0xA5", "--free-fill=0x5A", "--log-file=" + log, exe, os.path.join(os.path.dirname(csrc), "out.bin")] + extra, cpu=120, env=tenv)
         txt = open(log, errors="replace").read() if os.path.exists(log) else ""
         errs = _vg_errors(txt, os.path.dirname(csrc))
         got.append((r.rc, [e[0] for e in errs if VG_OUTPUT_PARAM.search(e[0])]))
@@ -747,9 +822,9 @@ def run(ctx):
 
         # ---- programs ------------------------------------------------------------------------------------
         rng = ctx.rng("programs")
-        n_total = ctx.n(64, 600)
+        n_total = ctx.n(70, 600)
         n_multi = ctx.n(8, 36)
-        n_ill = ctx.n(16, 180)
+        n_ill = ctx.n(21, 180)          # >= one of every BREAK_KINDS entry in the quick tier
         progs = []
         w = _witness_program()
         if w:
@@ -770,49 +845,64 @@ def run(ctx):
                                   os.path.basename(item)))
         repo = _repo_programs(rng, 10 ** 6)
         n_repo = max(0, n_total - len(progs) - n_ill) if quick else len(repo)
-        valid_pool = progs[:] + repo[:n_repo]
         progs.extend(repo[:n_repo])
-        # ill-formed programs and (thorough) valid variants derived from small valid-looking ones
-        small = [p for p in valid_pool if sum(len(v) for v in p.files.values()) < 12000] or valid_pool
-        serial = 0
-        tries = 0
-        ills = []
-        while len(ills) < n_ill and tries < n_ill * 4:
-            tries += 1
-            q = _break(small[rng.randrange(len(small))], rng, serial)
-            if q is not None:
-                ills.append(q)
-                serial += 1
-        progs.extend(ills)
-        tries = 0
-        while len(progs) < n_total and tries < n_total * 3:
-            tries += 1
-            q = _variant(small[rng.randrange(len(small))], rng, serial)
-            if q is not None:
-                progs.append(q)
-                serial += 1
-        # distinct programs only
         seen = set()
-        uniq = []
-        for p in progs:
-            if p.hash not in seen:
-                seen.add(p.hash)
-                uniq.append(p)
-        progs = uniq
         pbase = sc.sub("p")
-        for i, p in enumerate(progs):
-            p.materialise(pbase, i)
-            p.cfgs = _pick_configs(cfgs, quick, n_cfg, i)
-
         # memcheck configuration rotates over the path/cwd shaped ones (memory-layout levers do not apply under valgrind)
         vg_rot = ["baseline", "relpath", "cwd-deep", "tmpdir", "env30"]
-        n_vg = min(len(progs), ctx.n(40, 600))
-        vg_set = set(int(k * len(progs) / n_vg) for k in range(n_vg))        # evenly spread over all kinds of programs
-        jobs = []
-        for i, p in enumerate(progs):
-            jobs.append((flv, p, p.cfgs, i in vg_set, by_name[vg_rot[i % len(vg_rot)]]))
-        # long jobs first would need a cost estimate; the pool is simply kept saturated
-        results = pmap(_job, jobs, workers=NCPU)
+        n_vg = ctx.n(40, 600)
+        counter = [0]
+
+        def phase(plist, n_vg_here):
+            uniq = []
+            for p in plist:
+                if p.hash not in seen:
+                    seen.add(p.hash)
+                    uniq.append(p)
+            n_vg_here = min(n_vg_here, len(uniq))
+            vg_set = set(int(k * len(uniq) / n_vg_here) for k in range(n_vg_here)) if n_vg_here else set()
+            jobs = []
+            for j, p in enumerate(uniq):
+                i = counter[0]
+                counter[0] += 1
+                p.materialise(pbase, i)
+                p.cfgs = _pick_configs(cfgs, quick, n_cfg, i)
+                jobs.append((flv, p, p.cfgs, j in vg_set, by_name[vg_rot[i % len(vg_rot)]]))
+            return pmap(_job, jobs, workers=NCPU)
+
+        # phase 1: the programs as they are
+        share1 = max(1, int(round(n_vg * len(progs) / float(max(n_total, len(progs))))))
+        results = phase(progs, share1)
+
+        # phase 2: "take valid programs and break them": ill-formed programs (every fault kind in turn) and valid variants
+        # (literals changed) derived from small programs that BOTH tools accepted in phase 1
+        pool = []
+        for res in results:
+            if res["error"] is None and not any(o.timeout for o in res["obs"].values()) and \
+                    all(res["obs"][("baseline", t)].status == 0 and res["obs"][("baseline", t)].sha for t in TOOLS) and \
+                    sum(len(v) for v in res["prog"].files.values()) < 12000:
+                pool.append(res["prog"])
+        ctx.require(len(pool) >= 8, "too few accepted small programs to derive ill-formed ones from (%d)" % len(pool))
+        pool_multi = [p for p in pool if len(p.files) > 1]
+        second = []
+        serial = 0
+        tries = 0
+        kind0 = rng.randrange(len(BREAK_KINDS))
+        while len(second) < n_ill and tries < n_ill * 6:
+            tries += 1
+            src_pool = pool_multi if (pool_multi and tries % 3 == 0) else pool
+            q = _break(src_pool[rng.randrange(len(src_pool))], rng, serial, BREAK_KINDS[(kind0 + serial) % len(BREAK_KINDS)])
+            if q is not None and q.hash not in seen:
+                second.append(q)
+                serial += 1
+        tries = 0
+        while len(progs) + len(second) < n_total and tries < n_total * 3:
+            tries += 1
+            q = _variant(pool[rng.randrange(len(pool))], rng, serial)
+            if q is not None and q.hash not in seen and all(q.hash != x.hash for x in second[-50:]):
+                second.append(q)
+                serial += 1
+        results = results + phase(second, max(0, n_vg - share1))
 
         # ---- verdicts -------------------------------------------------------------------------------------
         st = dict(programs=0, accepted_nvm=0, accepted_genC=0, rejected_nvm=0, rejected_genC=0, dropped_timeout=0,
@@ -825,6 +915,8 @@ def run(ctx):
         distinct = set()
         samples = []
         crashes = {}
+        diag_kinds = {}
+        vg_example = {}
 
         def same_file_fn(prog, cwd_a, cwd_b):
             def same(pa, pb):
@@ -853,6 +945,10 @@ def run(ctx):
                 base = obs[("baseline", tool)]
                 acc = base.status == 0 and base.sha is not None
                 st[("accepted_" if acc else "rejected_") + tool] += 1
+                if not acc:
+                    for dm in re.finditer(r"(?m)^(?:-- ([A-Z][A-Z ]+) -|((?:Error|Warning|error|Lexing|Parsing)[^:\n]{0,40})[:\n])", base.diag):
+                        dk = dm.group(1) or re.sub(r"\d+", "N", dm.group(2)).strip()
+                        diag_kinds[dk] = diag_kinds.get(dk, 0) + 1
                 if base.sig:
                     crashes["%s:signal %d" % (tool, base.sig)] = crashes.get("%s:signal %d" % (tool, base.sig), 0) + 1
                 for cfg in prog.cfgs:
@@ -904,7 +1000,7 @@ def run(ctx):
                                           "%s (%s): .nvm differs between baseline and configuration '%s': %s"
                                           % (prog.name, prog.kind, cfg.name, desc), f)
                     # diagnostics: only meaningful when neither run was killed by a signal (buffered stdout is lost)
-                    if not base.sig and not o.sig and base.diag != o.diag:
+                    if base.status == o.status and not base.sig and not o.sig and base.diag != o.diag:
                         equal = False
                         cls, desc = classify_diag_diff(base.diag, o.diag)
                         f = dict(common)
@@ -933,6 +1029,7 @@ def run(ctx):
                     vg_kinds[hk] = vg_kinds.get(hk, 0) + 1
                     site = "%s|%s|%s" % (tool, hk, ">".join(funcs) or "?")
                     vg_sites[site] = vg_sites.get(site, 0) + 1
+                    vg_example.setdefault(site, prog.name)
                     if VG_OUTPUT_PARAM.search(head):
                         f = srcfiles(prog)
                         f["memcheck.log"] = o.vg
@@ -965,7 +1062,7 @@ def run(ctx):
                     ctx.violation(key, "%s (%s): %s output under valgrind (configuration '%s', malloc-fill 0xA5) differs from the "
                                   "baseline's: %s; memcheck reports: %s" % (prog.name, prog.kind, tool, vcfg.name, desc,
                                                                             [e[0] for e in errs][:5]), f)
-            if len(samples) < 8 and (prog.idx % 7 == 0 or prog.kind in ("multi", "ill")):
+            if sum(1 for x in samples if x["kind"] == prog.kind) < 2:
                 b1, b2 = obs[("baseline", "nvm")], obs[("baseline", "genC")]
                 samples.append({"program": prog.name, "kind": prog.kind, "note": prog.note, "hash": prog.hash,
                                 "configurations": [c.name for c in prog.cfgs],
@@ -978,6 +1075,7 @@ def run(ctx):
                     "too few accepted programs (nvm %d, genC %d)" % (st["accepted_nvm"], st["accepted_genC"]))
         ctx.require(st["rejected_nvm"] + st["rejected_genC"] >= ctx.n(6, 60), "too few ill-formed programs with diagnostics")
         ctx.require(kinds.get("multi", 0) >= 3, "too few multi-module programs")
+        ctx.require(len(diag_kinds) >= ctx.n(6, 10), "too few distinct kinds of diagnostics observed (%s)" % sorted(diag_kinds))
         ctx.require(st["memcheck_runs"] - st["memcheck_inconclusive"] >= ctx.n(40, 400),
                     "too few conclusive memcheck runs (%d of %d)" % (st["memcheck_runs"] - st["memcheck_inconclusive"], st["memcheck_runs"]))
         missing = [c.name for c in cfgs if c.name != "baseline" and per_dim.get(c.name, {}).get("pairs", 0) < 4]
@@ -996,8 +1094,10 @@ def run(ctx):
             "per_dimension": {k: {"pairs": v["pairs"], "equal": v["equal"], "programs": len(v["programs"])} for k, v in sorted(per_dim.items())},
             "counts": st,
             "baseline_crashes": crashes,
+            "diagnostic_kinds_of_rejected_programs": dict(sorted(diag_kinds.items(), key=lambda kv: -kv[1])[:40]),
             "memcheck_error_kinds": vg_kinds,
             "memcheck_error_sites": dict(sorted(vg_sites.items(), key=lambda kv: -kv[1])[:25]),
+            "memcheck_error_site_example_program": {k: vg_example[k] for k, _ in sorted(vg_sites.items(), key=lambda kv: -kv[1])[:25]},
             "controls": controls,
             "samples": samples,
         }
